@@ -563,7 +563,7 @@ func (w *c03Breaking) Write(b []byte) (int, error) {
 
 func TestC03(t *testing.T) {
 	core.Run(t, "C03",
-		"segments (text over whitespace/lone-delimiter/multibyte/Unicode-white-space alphabet, marker actions with independent trim markers, comments) under 22 fixed + random delimiter configurations (options in either order; comment markers that begin with the action delimiter), optional import/extends header, loader readers delivering the source whole / with data+EOF in one Read / byte by byte / in halves; templates that end in text are rendered a second time into a Write-only destination that breaks before the last byte (prefix delivered, Execute reports it); also: action delimiters that begin with the comment marker ('#{' with '#', '{{' with '{', '<%' with '<', '[[[' with '[['); round 10: only one of the two comment markers configured; a Go function that wraps Runtime.Writer in an upper-casing writer midway (text after it arrives in upper case, in source order); non-trivial = >=2 non-text segments and a text with whitespace next to a trim marker or a lone delimiter byte; distinct by case hash",
+		"segments (text over whitespace/lone-delimiter/multibyte/Unicode-white-space alphabet, marker actions with independent trim markers, comments) under 22 fixed + random delimiter configurations (options in either order; comment markers that begin with the action delimiter), optional import/extends header, loader readers delivering the source whole / with data+EOF in one Read / byte by byte / in halves; templates that end in text are rendered a second time into a Write-only destination that breaks before the last byte (prefix delivered, Execute reports it); also: action delimiters that begin with the comment marker ('#{' with '#', '{{' with '{', '<%' with '<', '[[[' with '[['); round 10: only one of the two comment markers configured; a Go function that wraps Runtime.Writer in an upper-casing writer midway (text after it arrives in upper case, in source order); round 11: markers written as raw string literals that end in a backslash; non-trivial = >=2 non-text segments and a text with whitespace next to a trim marker or a lone delimiter byte; distinct by case hash",
 		genC03, judgeC03)
 }
 
